@@ -52,9 +52,9 @@ Proof. destruct a; simpl; eauto using grows_refl. Qed.
 
 Lemma na_side_mono x y ox oy ox' oy' d d' :
   ogrows ox ox' -> ogrows oy oy' -> (d = true -> d' = true) ->
-  na_side x y ox oy d = true -> na_side x y ox' oy' d' = true.
+  na_side_s x y ox oy d = true -> na_side_s x y ox' oy' d' = true.
 Proof.
-  intros Hx Hy Hd. unfold na_side. destruct (negb (s_has x)); [auto|].
+  intros Hx Hy Hd. unfold na_side_s. destruct (negb (s_has x)); [auto|].
   destruct ox as [o|].
   - destruct Hx as [o' [-> [Gh Gp]]].
     intros H. apply andb_true_iff in H as [H1 H2]. apply andb_true_iff. split.
@@ -73,10 +73,26 @@ Qed.
 
 Lemma na_row_mono x y ox oy ox' oy' d d' :
   ogrows ox ox' -> ogrows oy oy' -> (d = true -> d' = true) ->
-  na_row x y ox oy d = true -> na_row x y ox' oy' d' = true.
+  na_row_s x y ox oy d = true -> na_row_s x y ox' oy' d' = true.
 Proof.
-  intros Hx Hy Hd H. unfold na_row in *. apply andb_true_iff in H as [H1 H2].
+  intros Hx Hy Hd H. unfold na_row_s in *. apply andb_true_iff in H as [H1 H2].
   apply andb_true_iff. split; eapply na_side_mono; eauto.
+Qed.
+
+Lemma na_side_s_weak x y ox oy d : na_side_s x y ox oy d = true -> na_side x y ox oy d = true.
+Proof.
+  unfold na_side_s, na_side. destruct (negb (s_has x)); [auto|]. destruct ox as [o|]; [|auto].
+  intros H. apply andb_true_iff in H as [H1 H2]. apply andb_true_iff. split.
+  - destruct (s_shash x) as [h|]; [|reflexivity]. apply andb_true_iff in H1 as [Ha Hb]. rewrite Ha. simpl.
+    destruct (s_has y); [|assumption]. rewrite Hb. apply orb_true_r.
+  - destruct (s_spath x) as [p|]; [|reflexivity]. apply andb_true_iff in H2 as [Ha Hb]. rewrite Ha. simpl.
+    destruct (s_has y); [|reflexivity]. rewrite Hb. apply orb_true_r.
+Qed.
+
+Lemma na_row_s_weak x y ox oy d : na_row_s x y ox oy d = true -> na_row x y ox oy d = true.
+Proof.
+  unfold na_row_s, na_row. intros H. apply andb_true_iff in H as [A B]. apply andb_true_iff.
+  split; now apply na_side_s_weak.
 Qed.
 
 (* ------------------------------------------------------------------ the invariant *)
@@ -84,7 +100,7 @@ Definition peer_of (e : ent) (ps : list obj) : option obj :=
   if s_has (e_peer e) then nth_error ps (e_ref e) else None.
 Definition ent_na1 (e : ent) (sl : slot) : Prop :=
   s_has (e_org e) = true /\
-  na_row (e_org e) (e_peer e) (Some (sl_org sl)) (peer_of e (sl_peers sl)) (e_disc e) = true.
+  na_row_s (e_org e) (e_peer e) (Some (sl_org sl)) (peer_of e (sl_peers sl)) (e_disc e) = true.
 (* the entry accounts for the object: it carries the change mark or describes the object as it is *)
 Definition ent_acc (e : ent) (sl : slot) : Prop :=
   s_changed (e_org e) = true \/ uptodate (e_org e) (o_now (sl_org sl)) = true.
@@ -188,15 +204,15 @@ Proof. unfold had_path, states. simpl. now rewrite N.eqb_refl. Qed.
 
 Lemma na_side_synced a b oa ob d :
   os_path (o_now oa) = os_path (o_now ob) -> os_kind (o_now oa) = os_kind (o_now ob) ->
-  na_side (synced_side (o_now a)) (synced_side (o_now b)) (Some oa) (Some ob) d = true ->
+  na_side_s (synced_side (o_now a)) (synced_side (o_now b)) (Some oa) (Some ob) d = true ->
   True.
 Proof. auto. Qed.
 
 Lemma na_row_link org p :
   os_path (o_now p) = os_path (o_now org) -> os_kind (o_now p) = os_kind (o_now org) ->
-  na_row (synced_side (o_now org)) (synced_side (o_now p)) (Some org) (Some p) false = true.
+  na_row_s (synced_side (o_now org)) (synced_side (o_now p)) (Some org) (Some p) false = true.
 Proof.
-  intros Hp Hk. unfold na_row, na_side, synced_side. simpl.
+  intros Hp Hk. unfold na_row_s, na_side_s, synced_side. simpl.
   pose proof (had_hash_now org) as H1. pose proof (had_hash_now p) as H2.
   pose proof (had_path_now org) as H3. pose proof (had_path_now p) as H4.
   rewrite Hk in *. rewrite Hp in *. rewrite H3, H4.
@@ -220,7 +236,7 @@ Definition same_marks (e e' : ent) : Prop :=
 Lemma ent_na1_same_marks e e' sl : same_marks e e' -> ent_na1 e sl -> ent_na1 e' sl.
 Proof.
   intros (A & B & C & D & E & F & G & H) [Hh Hn]. split; [assumption|].
-  unfold na_row, na_side, peer_of in *. rewrite A, B, C, D, E, F, G. rewrite Hh in Hn.
+  unfold na_row_s, na_side_s, peer_of in *. rewrite A, B, C, D, E, F, G. rewrite Hh in Hn.
   apply andb_true_iff in Hn as [N1 N2]. apply andb_true_iff. simpl in *.
   split.
   - destruct (s_shash (e_org e)); destruct (s_spath (e_org e)); simpl in *; auto;
@@ -425,7 +441,8 @@ Proof.
   intros [Hc Hf]. unfold never_ahead. apply forallb_forall. intros sl Hin.
   rewrite Forall_forall in Hf. destruct (Hf sl Hin) as (H0 & H1 & H2 & H3 & H4 & H5).
   unfold slot_never_ahead. apply andb_true_iff. split.
-  - destruct (sl_row sl) as [r|] eqn:Er; [|reflexivity]. destruct (H1 r eq_refl) as [_ Hn]. exact Hn.
+  - destruct (sl_row sl) as [r|] eqn:Er; [|reflexivity]. destruct (H1 r eq_refl) as [_ Hn].
+    apply na_row_s_weak. exact Hn.
   - unfold na_obj, pending_ev. simpl.
     destruct (Nat.ltb (sel (sl_side sl) (dcur x)) (o_ev (sl_org sl))) eqn:El; [reflexivity|].
     apply Nat.ltb_ge in El. destruct (Hc (sl_side sl)) as [A B].
